@@ -1,3 +1,375 @@
 package main
 
-func cmdCheck(args []string) {}
+import (
+	"encoding/json"
+	"flag"
+	"fmt"
+	"os"
+	"path/filepath"
+	"regexp"
+	"sort"
+	"strconv"
+	"strings"
+	"time"
+)
+
+type PropConfig struct {
+	ID        string   `json:"id"`
+	Functions []string `json:"functions"`
+	Include   string   `json:"include"` // regexp over obligation names; empty = all
+	Exclude   string   `json:"exclude"`
+	Assume    []string `json:"assumptions"`
+	Residual  string   `json:"residual"`
+	Lemmas    []string `json:"lemmas"`
+}
+
+type KnownFinding struct {
+	Property   string `json:"property"`
+	Obligation string `json:"obligation"`
+	Witness    string `json:"witness"`
+	What       string `json:"what"`
+}
+
+type KnownFile struct {
+	Findings []KnownFinding `json:"findings"`
+	Fixed    []string       `json:"fixed"`
+}
+
+var panicKinds = map[string]bool{"bounds": true, "nil": true, "div": true, "slice": true, "makeslice": true, "typeassert": true, "panic": true, "nilmap": true}
+
+func readLines(path string) map[string]bool {
+	out := map[string]bool{}
+	data, err := os.ReadFile(path)
+	if err != nil {
+		return out
+	}
+	for _, ln := range strings.Split(string(data), "\n") {
+		ln = strings.TrimSpace(ln)
+		if ln == "" || strings.HasPrefix(ln, "#") {
+			continue
+		}
+		out[ln] = true
+	}
+	return out
+}
+
+func cmdCheck(args []string) {
+	fs := flag.NewFlagSet("check", flag.ExitOnError)
+	repo := fs.String("repo", "/repo", "repository")
+	vdir := fs.String("verif", "/verif", "verif directory")
+	prop := fs.String("prop", "", "property id")
+	tier := fs.String("tier", "quick", "quick|thorough")
+	workers := fs.Int("j", 14, "parallel solver processes")
+	writeClaims := fs.Bool("write-claims", false, "(maintenance) rewrite the claims file from this run; never used by registered commands")
+	verbose := fs.Bool("v", false, "verbose")
+	fs.Parse(args)
+	t0 := time.Now()
+	seed := 0
+	if s := os.Getenv("VERIF_SEED"); s != "" {
+		seed, _ = strconv.Atoi(s)
+	}
+	if t := os.Getenv("VERIF_TIER"); t == "quick" || t == "thorough" {
+		*tier = t
+	}
+	var cfg PropConfig
+	data, err := os.ReadFile(filepath.Join(*vdir, "props", *prop+".json"))
+	if err != nil {
+		fmt.Fprintln(os.Stderr, "no property config:", err)
+		os.Exit(2)
+	}
+	if err := json.Unmarshal(data, &cfg); err != nil {
+		fmt.Fprintln(os.Stderr, "bad property config:", err)
+		os.Exit(2)
+	}
+	timeout := 10
+	if *tier == "thorough" {
+		timeout = 60
+	}
+	claims := readLines(filepath.Join(*vdir, "claims", *prop+".quick"))
+	if *tier == "thorough" {
+		for k := range readLines(filepath.Join(*vdir, "claims", *prop+".thorough")) {
+			claims[k] = true
+		}
+	}
+	var kf KnownFile
+	if data, err := os.ReadFile(filepath.Join(*vdir, "known_findings.json")); err == nil {
+		json.Unmarshal(data, &kf)
+	}
+	known := map[string]KnownFinding{}
+	for _, f := range kf.Findings {
+		if f.Property == *prop {
+			known[f.Obligation] = f
+		}
+	}
+
+	p, err := LoadProgram(*repo)
+	if err != nil {
+		// the tree does not build with the verif tag: nothing can be decided
+		fmt.Fprintln(os.Stderr, "cannot load repository:", err)
+		os.Exit(2)
+	}
+	loadS := time.Since(t0).Seconds()
+	var inc, exc *regexp.Regexp
+	if cfg.Include != "" {
+		inc = regexp.MustCompile(cfg.Include)
+	}
+	if cfg.Exclude != "" {
+		exc = regexp.MustCompile(cfg.Exclude)
+	}
+	var all []*OblResult
+	var frs []*FuncResult
+	fnErr := map[string]string{}
+	for _, key := range cfg.Functions {
+		fr, _ := verifyFunc(p, key)
+		frs = append(frs, fr)
+		if fr.Err != "" {
+			fnErr[key] = fr.Err
+			continue
+		}
+		for _, o := range fr.Obls {
+			if inc != nil && !inc.MatchString(o.Obl.Name) && o.Obl.Kind != "cover" {
+				continue
+			}
+			if exc != nil && exc.MatchString(o.Obl.Name) {
+				continue
+			}
+			all = append(all, o)
+		}
+	}
+	genS := time.Since(t0).Seconds() - loadS
+	order := []int{0, 1, 2}
+	solveAll(all, timeout, *workers, order)
+	byName := map[string]*OblResult{}
+	for _, r := range all {
+		byName[r.Obl.Name] = r
+	}
+
+	if *writeClaims {
+		var names []string
+		for _, r := range all {
+			if r.Status == "discharged" && r.Res.Time <= 3.0 {
+				names = append(names, r.Obl.Name)
+			}
+		}
+		sort.Strings(names)
+		os.MkdirAll(filepath.Join(*vdir, "claims"), 0o755)
+		os.WriteFile(filepath.Join(*vdir, "claims", *prop+"."+*tier), []byte(strings.Join(names, "\n")+"\n"), 0o644)
+		fmt.Printf("wrote %d claims\n", len(names))
+	}
+
+	// classification
+	violations := 0
+	var vioLines []string
+	discharged, claimedN := 0, 0
+	bySolver := map[string]int{}
+	solverTime := 0.0
+	var undecided, newFailing, knownLines []string
+	coverOK := true
+	replayDir := filepath.Join(*vdir, "replay", *prop)
+	os.MkdirAll(replayDir, 0o755)
+	report := func(name, reason string, r *OblResult) {
+		violations++
+		path := filepath.Join(replayDir, smtFileName(name)+".json")
+		tail := ""
+		rep := map[string]interface{}{"property": *prop, "obligation": name, "reason": reason}
+		replayed := false
+		if r != nil {
+			rep["solver_status"] = r.Res.Status
+			rep["solver_tried"] = r.Res.Tried
+			rep["position"] = r.Obl.Pos.String()
+			if r.Res.Status == "sat" {
+				rr := tryReplay(p, r, *vdir, replayDir)
+				rep["replay"] = rr
+				replayed = rr != nil && rr.Reproduced
+			}
+			os.WriteFile(filepath.Join(replayDir, smtFileName(name)+".smt2"), []byte(r.Script), 0o644)
+			rep["smt_script"] = filepath.Join(replayDir, smtFileName(name)+".smt2")
+			rep["solver_output"] = truncate(r.Res.Output, 4000)
+		}
+		if !replayed {
+			tail = " no-failing-input-found"
+		}
+		js, _ := json.MarshalIndent(rep, "", " ")
+		os.WriteFile(path, js, 0o644)
+		vioLines = append(vioLines, fmt.Sprintf("VIOLATION property=%s replay=%s obligation=%s reason=%s%s", *prop, path, name, reason, tail))
+	}
+	var claimNames []string
+	for k := range claims {
+		claimNames = append(claimNames, k)
+	}
+	sort.Strings(claimNames)
+	for _, name := range claimNames {
+		claimedN++
+		r, ok := byName[name]
+		if !ok {
+			// claimed obligation no longer generated
+			fnKey := name[:strings.Index(name, "#")]
+			kind := name[strings.Index(name, "#")+1:]
+			if i := strings.Index(kind, ":"); i >= 0 {
+				kind = kind[:i]
+			}
+			if e, bad := fnErr[fnKey]; bad {
+				report(name, "contract-no-longer-matches-code: "+firstLine(e), nil)
+				continue
+			}
+			if panicKinds[kind] {
+				// the indexed expression no longer exists: nothing to prove for it
+				claimedN--
+				continue
+			}
+			report(name, "claimed-obligation-vanished", nil)
+			continue
+		}
+		switch r.Status {
+		case "discharged":
+			discharged++
+			bySolver[r.Res.Solver]++
+			solverTime += r.Res.Time
+		default:
+			if f, isKnown := known[name]; isKnown {
+				knownLines = append(knownLines, fmt.Sprintf("KNOWN-FINDING: property=%s %s [%s]", *prop, f.What, name))
+				claimedN--
+				continue
+			}
+			report(name, r.Status, r)
+		}
+	}
+	for _, r := range all {
+		if r.Obl.Kind == "cover" {
+			if r.Status != "cover-ok" {
+				coverOK = false
+				undecided = append(undecided, r.Obl.Name+" ["+r.Status+"]")
+			}
+			continue
+		}
+		if claims[r.Obl.Name] {
+			continue
+		}
+		if f, isKnown := known[r.Obl.Name]; isKnown {
+			if r.Status != "discharged" {
+				knownLines = append(knownLines, fmt.Sprintf("KNOWN-FINDING: property=%s %s [%s]", *prop, f.What, r.Obl.Name))
+			} else {
+				fmt.Printf("note: known finding %s no longer reproduces\n", r.Obl.Name)
+			}
+			continue
+		}
+		if r.Status != "discharged" {
+			undecided = append(undecided, r.Obl.Name+" ["+r.Status+"]")
+		}
+	}
+	_ = newFailing
+	for _, l := range knownLines {
+		fmt.Println(l)
+	}
+	for _, l := range vioLines {
+		fmt.Println(l)
+	}
+	if *verbose {
+		for _, r := range all {
+			fmt.Printf("%-12s %-7s %5.2fs  %s\n", r.Status, r.Res.Solver, r.Res.Time, r.Obl.Name)
+		}
+		for k, e := range fnErr {
+			fmt.Printf("ERROR %s: %s\n", k, e)
+		}
+	}
+	// evidence
+	var fnInfo []map[string]interface{}
+	abstrAll := map[string]bool{}
+	for _, fr := range frs {
+		fnInfo = append(fnInfo, map[string]interface{}{"function": fr.Key, "ssa_instructions": fr.NInstr, "abstracted": fr.Abstr, "unsound_constructs": fr.Unsound, "error": fr.Err})
+		for _, a := range fr.Abstr {
+			abstrAll[fr.Key+": "+a] = true
+		}
+	}
+	var samples []map[string]string
+	for _, r := range all {
+		if len(samples) >= 3 {
+			break
+		}
+		if claims[r.Obl.Name] && r.Status == "discharged" && len(r.Script) < 6000 && r.Obl.Kind != "cover" {
+			samples = append(samples, map[string]string{"obligation": r.Obl.Name, "smtlib": r.Script, "answer": r.Res.Status, "solver": r.Res.Solver})
+		}
+	}
+	assumptions := append([]string{}, baseAssumptions...)
+	assumptions = append(assumptions, cfg.Assume...)
+	for _, pc := range p.contracts {
+		for _, a := range pc.Assumes {
+			assumptions = append(assumptions, "contract assume: "+a)
+		}
+	}
+	var ab []string
+	for a := range abstrAll {
+		ab = append(ab, a)
+	}
+	sort.Strings(ab)
+	sort.Strings(undecided)
+	ev := map[string]interface{}{
+		"property_id": *prop, "tier": *tier, "seed": seed, "level": "proof",
+		"coverage": map[string]interface{}{
+			"obligations": claimedN, "discharged": discharged,
+			"checker_cmd":   fmt.Sprintf("/verif/bin/govc check --prop %s --tier %s  (VC generation over go/ssa of /repo working tree; z3 5.1.0, z3 4.8.12, cvc5 1.0)", *prop, *tier),
+			"trusted_base":  trustedBase,
+			"functions":     fnInfo,
+			"by_solver":     bySolver,
+			"solver_time_s": solverTime,
+			"generated_obligations": len(all),
+			"unclaimed_undecided":   undecided,
+			"known_findings":        knownLines,
+			"cover_ok":              coverOK,
+			"samples":               samples,
+			"abstracted":            ab,
+			"residual_not_decided":  cfg.Residual,
+			"load_s":                loadS, "vcgen_s": genS,
+		},
+		"assumptions": assumptions,
+		"wall_s":      time.Since(t0).Seconds(),
+		"violations":  violations,
+	}
+	js, _ := json.MarshalIndent(ev, "", " ")
+	os.MkdirAll(filepath.Join(*vdir, "evidence"), 0o755)
+	os.WriteFile(filepath.Join(*vdir, "evidence", *prop+".json"), js, 0o644)
+	fmt.Printf("property %s tier %s: %d/%d claimed obligations discharged, %d generated, %d known findings, %d violations, %.1fs\n",
+		*prop, *tier, discharged, claimedN, len(all), len(knownLines), violations, time.Since(t0).Seconds())
+	if claimedN == 0 || discharged == 0 {
+		fmt.Println("error: no obligations claimed/discharged (vacuous check)")
+		os.Exit(2)
+	}
+	if violations > 0 {
+		os.Exit(1)
+	}
+}
+
+var baseAssumptions = []string{
+	"govc's SSA-to-SMT translation and contract evaluator are trusted (hand-built VC generator)",
+	"go/types and x/tools/go/ssa v0.29.0 represent the source faithfully",
+	"one solver 'unsat' answer is trusted (z3 5.1.0, z3 4.8.12, cvc5 1.0)",
+	"signed integers are mathematical (no overflow check); unsigned integers wrap exactly; float64 is real arithmetic",
+	"distinct heap objects are distinguished by reference; interior pointers passed as arguments do not alias other parameters' fields",
+	"no concurrent mutation during a call (mutexes, goroutines, channels are not modelled)",
+	"calls into code outside the module do not modify module-typed state except through slice/pointer arguments; unknown callees, interface calls and closures havoc all modelled state",
+	"pointer receivers are non-nil",
+}
+
+var trustedBase = []string{"govc (this repository's VC generator)", "golang.org/x/tools/go/ssa v0.29.0", "go/types (go1.23.5)", "z3 5.1.0", "z3 4.8.12", "cvc5 1.0"}
+
+func smtFileName(name string) string {
+	s := regexp.MustCompile(`[^A-Za-z0-9_.-]+`).ReplaceAllString(name, "_")
+	if len(s) > 150 {
+		s = s[:150]
+	}
+	return s
+}
+
+func truncate(s string, n int) string {
+	if len(s) > n {
+		return s[:n] + "..."
+	}
+	return s
+}
+
+func firstLine(s string) string {
+	if i := strings.Index(s, "\n"); i >= 0 {
+		return s[:i]
+	}
+	return s
+}
